@@ -168,10 +168,11 @@ def render_xta(M):
         sts = []
         for l in T['locs']:
             s = loc_name(T, l['id'])
-            items = []
-            if l['inv'] is not None: items.append(ltext(M, 'inv', l['inv']))
-            if l['rate'] is not None: items.append(None)
-            sts.append(s + (' { %s }' % items[0] if items and items[0] else ''))
+            inv = ltext(M, 'inv', l['inv']) if l['inv'] is not None else ''
+            if l['rate'] is not None:
+                sts.append('%s { %s; %s }' % (s, inv, ltext(M, 'rate', l['rate'])))
+            else:
+                sts.append(s + (' { %s }' % inv if inv else ''))
         out.append('state ' + ', '.join(sts) + ';\n')
         c = [loc_name(T, l['id']) for l in T['locs'] if l['committed']]
         u = [loc_name(T, l['id']) for l in T['locs'] if l['urgent']]
@@ -255,12 +256,13 @@ def parse_dump(lines):
         if m:
             cur['bps'].append(m.group(2))
             continue
-        m = re.match(r't\d+ edge nr=(\d+) src=(\S+) dst=(\S+) control=(\d) act=(\S+) select=\[(.*?)\] guard=(.*) sync=(.*) assign=(.*) prob=(.*)$', l)
+        m = re.match(r't\d+ edge nr=(\d+) src=(\S+) dst=(\S+) control=(\d) act=(\S*) select=\[(.*?)\] guard=(.*) sync=(.*) assign=(.*) prob=(.*)$', l)
         if m:
             sel = tuple(markers(m.group(6)))
             g, sy, a, p = m.group(7), m.group(8), m.group(9), m.group(10)
             cur['edges'].append((m.group(2), m.group(3), m.group(4) == '1', sel, one(g), one(sy), one(a), one(p)))
             cur.setdefault('edgenrs', []).append(int(m.group(1)))
+            cur.setdefault('acts', []).append(m.group(5))
             continue
         m = re.match(r'process (\d+) name=(\S+) templ=(\S+) params=\[(.*?)\] unbound=(\d+) arguments=(\d+) mapping=\{(.*?)\} nmapping', l)
         if m:
